@@ -158,7 +158,7 @@ def factorial_spec(levels, reps, seed=0, catkinds=None, numerics=("x", "z", "w")
 @st.composite
 def random_frame(draw, cat_vars=("f", "g", "h"), num_vars=("x", "z"), int_vars=("k",), min_rows=4, max_rows=40,
                  max_levels=4, with_index=True, extra_unused=True, pos_vars=(), num_styles=("general", "general", "ties", "offset", "smallint", "intdtype", "symmetric"),
-                 min_levels=2, intcat_vars=()):
+                 min_levels=2, intcat_vars=(), bool_vars=()):
     """Arbitrary frame: unequal level counts, every declared level of a variable occurs at least once,
     str / Categorical / ordered Categorical columns, optional exotic index, optional unused columns."""
     n = draw(st.integers(max(min_rows, max_levels + 1), max_rows))
@@ -212,6 +212,10 @@ def random_frame(draw, cat_vars=("f", "g", "h"), num_vars=("x", "z"), int_vars=(
         cols.append({"name": name, "kind": "float", "values": [round(float(t), 6) for t in v]})
     for j, name in enumerate(pos_vars):
         cols.append({"name": name, "kind": "float", "values": [round(float(t), 6) for t in weyl(n, 3 + j, seed, 0.5, 6.0)]})
+    for j, name in enumerate(bool_vars):  # a boolean column (numeric when bare, two levels through C())
+        vals = [bool(t > 0.2) for t in weyl(n, 7 + j, seed)]
+        vals[spots[0]], vals[spots[1]] = True, False
+        cols.append({"name": name, "kind": "bool", "values": vals})
     cols.append({"name": "y", "kind": "float", "values": [round(float(t), 6) for t in weyl(n, 5, seed + 1, -3, 3)]})
     if extra_unused and draw(st.booleans()):
         cols.append({"name": "unused_num", "kind": "float", "values": [float(i) for i in range(n)]})
@@ -220,11 +224,15 @@ def random_frame(draw, cat_vars=("f", "g", "h"), num_vars=("x", "z"), int_vars=(
     cols = [cols[i] for i in order]
     index = None
     if with_index:
-        ik = draw(st.sampled_from(["default", "default", "shuffled", "strings", "floats"]))
+        ik = draw(st.sampled_from(["default", "default", "shuffled", "strings", "floats", "multi", "descending"]))
         if ik == "shuffled":
             index = list(draw(st.permutations(range(n))))
         elif ik == "strings":
             index = ["r%d" % (i % 3) for i in range(n)]
         elif ik == "floats":
             index = [float(i) / 2 for i in range(n)]
+        elif ik == "multi":
+            index = [["b" if i % 2 else "a", i // 3] for i in range(n)]  # a MultiIndex with repeated entries
+        elif ik == "descending":
+            index = [n - i for i in range(n)]
     return {"cols": cols, "index": index}
